@@ -19,6 +19,7 @@ import (
 	"encoding/json"
 	"errors"
 	"fmt"
+	"reflect"
 	"strconv"
 	"strings"
 	"sync/atomic"
@@ -61,6 +62,34 @@ func (c *fcfg) renderTiAddr() string {
 // ---------------------------------------------------------------------------------------------
 // GetTokenInfo, directly, with every answer shape
 
+// getTokenInfoOf asks the real client for the metadata of token id. The method is looked up at run time: with the signature the
+// pinned tree has - (ctx, tokenId) - it is called as is. Should it have grown parameters, what those mean is the caller's
+// business, so the question is put the way production puts it: through Watcher.validateAttestToken, with an attestation that
+// carries exactly what the token contract reports (ALPH: its fixed metadata) - it passes if and only if GetTokenInfo returned
+// exactly that.
+func getTokenInfoOf(node *fakeNode, client *Client, t *tokenTruth, id Byte32) (*TokenInfo, error) {
+	m := reflect.ValueOf(client).MethodByName("GetTokenInfo")
+	if m.IsValid() && m.Type().NumIn() == 2 && m.Type().NumOut() == 2 {
+		out := m.Call([]reflect.Value{reflect.ValueOf(context.Background()), reflect.ValueOf(id)})
+		info, _ := out[0].Interface().(*TokenInfo)
+		err, _ := out[1].Interface().(error)
+		if err == nil && info == nil {
+			err = errors.New("no token info")
+		}
+		return info, err
+	}
+	want := &TokenInfo{TokenId: id, Decimals: t.decimals, Symbol: string(t.symbol), Name: string(t.name)}
+	if id == ALPHTokenId {
+		want = &ALPHTokenInfo
+	}
+	w := &Watcher{client: client, chainIndex: &ChainIndex{FromGroup: node.group, ToGroup: node.group}, blockPollerEnabled: &atomic.Bool{}}
+	payload := attestPayload(id[:], 255, want.Decimals, pad32([]byte(want.Symbol), true), pad32([]byte(want.Name), false))
+	if err := w.validateAttestToken(context.Background(), &WormholeMessage{payload: payload}); err != nil {
+		return nil, err
+	}
+	return want, nil
+}
+
 func (g *fgen) genTinfo(n int) {
 	node := g.node
 	for i := 0; i < n; i++ {
@@ -83,7 +112,7 @@ func (g *fgen) genTinfo(n int) {
 					res = "panic"
 				}
 			}()
-			info, err := client.GetTokenInfo(context.Background(), id)
+			info, err := getTokenInfoOf(node, client, t, id)
 			if err == nil {
 				res = fmt.Sprintf("ok:%s:%d:%s:%s", hex.EncodeToString(info.TokenId[:]), info.Decimals, fhex([]byte(info.Symbol)), fhex([]byte(info.Name)))
 			}
@@ -195,8 +224,8 @@ func (r *watchRun) reobserve(tx string) {
 		hs = append(hs, fmt.Sprintf("%s:%d:%d", e.bh, h.height, h.ts))
 		ms = append(ms, e.bh+":"+fb(n.main[e.bh]))
 	}
-	line := fmt.Sprintf("mainnet=%s bridge=%s gov=%s chain=255 hash=%s status=%s evs=%s hdr=%s main=%s ti=%s height=%d",
-		fb(r.c.mainnet), hex.EncodeToString(r.c.bridge), r.c.gov, tx, status, renderEvs(evs), fjoin(hs, ","), fjoin(ms, ","), r.c.renderTiAddr(), n.height)
+	line := fmt.Sprintf("mainnet=%s ctor=%s bridge=%s gov=%s chain=255 hash=%s status=%s evs=%s hdr=%s main=%s ti=%s height=%d",
+		fb(r.c.mainnet), r.c.ctor(), hex.EncodeToString(r.c.bridge), r.c.gov, tx, status, renderEvs(evs), fjoin(hs, ","), fjoin(ms, ","), r.c.renderTiAddr(), n.height)
 	n.mu.Unlock()
 	now := time.Now().UnixMilli()
 	res := "ok"
@@ -595,4 +624,6 @@ func (g *fgen) genC09() {
 	}
 	g.genRestarts(nRst)
 	g.genMeta(nMeta)
+	g.genPaths(nMeta)
+	g.genPageFail(nMeta)
 }
